@@ -1,5 +1,5 @@
-"""S-PROC: BaseProcess.start/join/is_alive/exitcode/terminate and Popen.poll/wait (fork/spawn
-flavour and forkserver flavour) against scripted children on the simulated kernel; the child side
+"""S-PROC: BaseProcess.start/join/is_alive/exitcode/terminate and Popen.poll/wait (fork, spawn
+and forkserver flavours; spawn runs popen_spawn_posix.Popen._launch itself) against scripted children on the simulated kernel; the child side
 runs the repository's real BaseProcess._bootstrap.  Serves C19."""
 import sys
 
@@ -10,9 +10,12 @@ RUNS_PER_FORK = 10
 COMPONENTS = {
     'real': ['billiard/process.py BaseProcess.__init__/start/join/is_alive/exitcode/terminate/_bootstrap, '
              'active_children/_cleanup', 'billiard/popen_fork.py Popen.poll/wait/terminate/close',
+             'billiard/popen_spawn_posix.py Popen.__init__/_launch/duplicate_for_child (spawn flavour)',
              'billiard/popen_forkserver.py Popen.poll', 'billiard/forkserver.py read_unsigned/write_unsigned',
              'billiard/connection.py wait'],
-    'stub': ['fork/exec -> simulated process created from a pickled copy (spawn-like)', 'waitpid, kill, wait '
+    'stub': ['fork/exec -> simulated process created from a pickled copy (spawn-like)',
+             'spawn flavour: spawnv_passfds -> simulated process inheriting exactly passfds that reads the pickles '
+             '_launch writes; semaphore_tracker.getfd -> a simulated descriptor', 'waitpid, kill, wait '
              'statuses, sentinel pipe, poll, clock -> simulated kernel', 'the forkserver process itself is not '
              'run: the child writes pid and exit code to the status pipe as forkserver._serve_one does'],
 }
@@ -26,7 +29,7 @@ RULE = ('case = (start flavour fork|forkserver|spawn, child program: ticks/sleep
         'start-again/foreign-start ops, EINTR rate); distinct = distinct (workload hash, schedule fingerprint); '
         'non-trivial = a parent observation was made while the child was still alive AND one after it ended')
 PROBES = ['observed_alive_then_dead', 'join_timed_out', 'join_returned_at_exit_instant', 'eintr', 'signal_death',
-          'forkserver_eof_status', 'double_start_refused', 'foreign_start_refused', 'terminated_by_parent']
+          'forkserver_eof_status', 'spawn_launch', 'double_start_refused', 'foreign_start_refused', 'terminated_by_parent']
 
 SIGS = [9, 15, 11, 6, 1, 2, 3, 10, 12, 14]
 
@@ -313,6 +316,8 @@ def execute(case, seed, choices=None):
             k.probe('observed_alive_then_dead')
         if case['flavour'] == 'forkserver' and exp in (255, ('nonzero',)):
             k.probe('forkserver_eof_status')
+        if case['flavour'] == 'spawn':
+            k.probe('spawn_launch')
     if k.faults.get('eintr'):
         k.probe('eintr')
     return finish(k, case, viol, k.n_decisions > 0 and k.probes.get('observed_alive_then_dead', 0) > 0)
